@@ -252,6 +252,41 @@ Definition read_rest (s : list ch) (ln : Z) : tok * list ch * Z :=
   let '(s4, ln4) := skip_space s3 ln3 in
   (TRest dir len, s4, ln4).
 
+(* ---- numerals: the code saturates every numeral at NUMERAL_MAX (source_cursor.rs get_int / get_hex); the numerals of
+        the model are unbounded.  The readers of the controller / reservation commands answer Unsupported for a value
+        beyond the bound, so that the difference cannot be observed through them ---- *)
+Definition zbig (z : Z) : bool := NUMERAL_MAX <? Z.abs z.
+(* ramps (lo, hi, len)*: one event per `freq` ticks of every segment.  A program that requests a ramp of more than RAMP_MAX
+   ticks in one command is outside the model (like a loop count beyond any reasonable size) *)
+Definition RAMP_MAX : Z := 40000.
+Fixpoint ramp_total (ia : list Z) : Z :=
+  match ia with
+  | _ :: _ :: len :: r => Z.max 0 len + ramp_total r
+  | _ => 0
+  end.
+Definition ramp_long (ia : list Z) : bool := RAMP_MAX <? ramp_total ia.
+Definition tok_big (t : tok) : bool :=
+  match t with
+  | TCC no v => zbig no || zbig v
+  | TPitchBend _ v => zbig v
+  | TRpnCmd _ _ _ v => zbig v
+  | TRpnDirect _ args => existsb zbig args
+  | TRandom _ r => zbig r
+  | TOnNote _ _ ia | TVOnTime ia => existsb zbig ia
+  | TPBOnTime _ ia => existsb zbig ia || ramp_long ia
+  | TCCOnNote no ia => zbig no || existsb zbig ia
+  | TCCOnTime no ia | TCCOnNoteWave no ia => zbig no || existsb zbig ia || ramp_long ia
+  | TCCFreq v => zbig v
+  | TDecresc _ v1 v2 => zbig v1 || zbig v2
+  | TTiming v | TOctave v | TQLen v | TVelocity v _ => zbig v      (* the plain values read by the same readers *)
+  | _ => false
+  end.
+Definition otok_big (ot : option tok) : bool := match ot with Some t => tok_big t | None => false end.
+Definition guard3 (r : res (option tok * list ch * Z)) : res (option tok * list ch * Z) :=
+  do x <- r; if otok_big (fst (fst x)) then Unsupported U_EXPR else Ok x.
+Definition guard_tok (r : res (tok * list ch * Z)) : res (tok * list ch * Z) :=
+  do x <- r; if tok_big (fst (fst x)) then Unsupported U_EXPR else Ok x.
+
 (* ---- read_arg_int_array / read_arg_value_int_array with literal values (a nested parenthesised list is outside the model) ---- *)
 Fixpoint read_int_array_loop (fuel : nat) (tb : Z) (s : list ch) (ln : Z) : res (list Z * list ch * Z) :=
   match fuel with
@@ -308,6 +343,7 @@ Definition read_dot_res (w : Reserve.which) (on_time : option (list Z -> option 
 Definition read_length (tb : Z) (s : list ch) (ln : Z) : res (option tok * list ch * Z) :=
   let plain (s0 : list ch) (ln0 : Z) : res (option tok * list ch * Z) :=
     let '(len, s1, ln1) := get_note_length s0 ln0 in Ok (Some (TLength len), s1, ln1) in
+  guard3 (
   if eq_char s c_DOT then
     let '(cmd, s1) := get_word (tl s) in
     if list_eqb cmd (zs "Random") || is_w cmd "onTime" "T" then
@@ -318,13 +354,14 @@ Definition read_length (tb : Z) (s : list ch) (ln : Z) : res (option tok * list 
     else if is_w cmd "onCycle" "C" then
       do r <- read_arg_int_array tb s1 ln; let '(ia, s2, ln2) := r in Ok (Some (TOnNote Reserve.WL true ia), s2, ln2)
     else plain s1 ln
-  else plain s ln.
+  else plain s ln).
 
 (* the common tail of read_octave / read_qlen / read_velocity / read_timing *)
 Definition read_res_or_value (w : Reserve.which) (on_time : option (list Z -> option tok)) (mk : Z -> tok)
   (tb : Z) (s : list ch) (ln : Z) : res (option tok * list ch * Z) :=
   let plain (s0 : list ch) (ln0 : Z) : res (option tok * list ch * Z) :=
     do r <- read_plain_value tb s0 ln0; let '(v, s1, ln1) := r in Ok (Some (mk v), s1, ln1) in
+  guard3 (
   if eq_char s c_DOT then
     do d <- read_dot_res w on_time tb (tl s) ln;
     let '(o, s1, ln1) := d in
@@ -332,7 +369,7 @@ Definition read_res_or_value (w : Reserve.which) (on_time : option (list Z -> op
     | Some ot => Ok (ot, s1, ln1)
     | None => plain s1 ln1
     end
-  else plain s ln.
+  else plain s ln).
 
 Definition read_octave (tb : Z) (s : list ch) (ln : Z) : res (option tok * list ch * Z) :=
   read_res_or_value Reserve.WO (Some (fun _ => None)) TOctave tb s ln.
@@ -457,7 +494,14 @@ Definition read_macro_arg (tb : Z) (s : list ch) (ln : Z) : res (option marg * l
     end
   else
     do r <- read_calc_literal tb s1 ln1;
-    let '(v, s2, ln2) := r in Ok (match v with Some z => Some (MInt z) | None => None end, s2, ln2).
+    let '(v, s2, ln2) := r in
+    match v with
+    | Some z =>
+        (* the decimal TEXT of this value is what a macro / PLAY / Str sees: the code saturates numerals at NUMERAL_MAX
+           (source_cursor.rs), the model's numerals are unbounded - values beyond the bound stay outside the model *)
+        if NUMERAL_MAX <? Z.abs z then Unsupported U_EXPR else Ok (Some (MInt z), s2, ln2)
+    | None => Ok (None, s2, ln2)
+    end.
 Fixpoint read_macro_args_loop (fuel : nat) (tb : Z) (s : list ch) (ln : Z) : res (list (option marg) * list ch * Z) :=
   match fuel with
   | O => OutOfFuel
@@ -544,6 +588,8 @@ Fixpoint rhythm_expand (fuel : nat) (tbl : list (Z * list ch)) (s : list ch) : l
 Definition oz (o : option Z) : Z := match o with Some v => v | None => 0 end.
 (* the result of a reader that may produce no token (an Empty / Error token of the code) and may write a log entry *)
 Definition rd_out := (option tok * list ch * Z * lexstate)%type.
+Definition guard_out (r : res rd_out) : res rd_out :=
+  do x <- r; if otok_big (fst (fst (fst x))) then Unsupported U_EXPR else Ok x.
 
 (* read_command_cc(no): `M(v)` `V=v` ...; the value is what exec_value leaves: one argument, 0 when it is empty.
    `.onTime/.T .onNote/.N .Frequency .onNoteWave/.W` are reservations, `.onNoteWaveEx/.WE .onCycle/.C .Sine .onNoteSine` are
@@ -580,7 +626,7 @@ Definition read_command_cc (ls : lexstate) (no : Z) (s : list ch) (ln : Z) : res
   else plain s.
 
 (* read_cc(ch): `y<no>,<value>` (is_c = false) and `CC(no,value)` (is_c = true) *)
-Definition read_cc (ls : lexstate) (is_c : bool) (s : list ch) (ln : Z) : res rd_out :=
+Definition read_cc_raw (ls : lexstate) (is_c : bool) (s : list ch) (ln : Z) : res rd_out :=
   let '(s1, ln1) := skip_space s ln in
   let '(no, s2) := if is_c then (if eq_char s1 40 then get_int 0 (tl s1) else (0, s1)) else get_int 0 s1 in
   if eq_char s2 c_DOT then read_command_cc ls no s2 ln1
@@ -600,12 +646,16 @@ Definition read_cc (ls : lexstate) (is_c : bool) (s : list ch) (ln : Z) : res rd
           else Ok (Some (TCC no z), s5, ln5, ls)
       end.
 
+Definition read_cc (ls : lexstate) (is_c : bool) (s : list ch) (ln : Z) : res rd_out :=
+  guard_out (read_cc_raw ls is_c s ln).
+
 (* read_pitch_bend_small (big = 0) / read_command_pitch_bend_big (big = 1); `.onTime` / `.T` are tested as prefixes *)
 Definition read_pitch_bend (big : Z) (tb : Z) (s : list ch) (ln : Z) : res (tok * list ch * Z) :=
+  guard_tok (
   if prefixb (zs ".onTime") s || prefixb (zs ".T") s then
     let s0 := if prefixb (zs ".onTime") s then skipn 7 s else skipn 2 s in
     do r <- read_arg_int_array tb s0 ln; let '(ia, s1, ln1) := r in Ok (TPBOnTime big ia, s1, ln1)
-  else do r <- read_arg_value (arg_fuel s) tb s ln; let '(v, s1, ln1) := r in Ok (TPitchBend big (aval_to_i v), s1, ln1).
+  else do r <- read_arg_value (arg_fuel s) tb s ln; let '(v, s1, ln1) := r in Ok (TPitchBend big (aval_to_i v), s1, ln1)).
 
 (* read_fadein(dir): Expression ramps over `arg` whole notes, computed at lex time *)
 Definition read_fadein (dir : Z) (tb : Z) (s : list ch) (ln : Z) : res (tok * list ch * Z) :=
@@ -671,7 +721,7 @@ Definition read_def_str (ls : lexstate) (s : list ch) (ln : Z) : res rd_out :=
 
 (* the commands of read_upper_command this extension adds, by token type (and argument type) of the table row;
    anything else stays outside the model *)
-Definition read_ext_command (ls : lexstate) (ttype : list ch) (argt tag1 tag2 : Z) (s : list ch) (ln : Z) : res rd_out :=
+Definition read_ext_command_raw (ls : lexstate) (ttype : list ch) (argt tag1 tag2 : Z) (s : list ch) (ln : Z) : res rd_out :=
   if argt =? 65 then
     (* 'A': skip blanks, an optional '=', read_args_tokens *)
     if list_eqb ttype (zs "RPN") || list_eqb ttype (zs "NRPN") || list_eqb ttype (zs "Voice") then
@@ -697,6 +747,8 @@ Definition read_ext_command (ls : lexstate) (ttype : list ch) (argt tag1 tag2 : 
     else if list_eqb ttype (zs "DefStr") then read_def_str ls s ln
     else Unsupported U_UPPER
   else Unsupported U_UPPER.
+Definition read_ext_command (ls : lexstate) (ttype : list ch) (argt tag1 tag2 : Z) (s : list ch) (ln : Z) : res rd_out :=
+  guard_out (read_ext_command_raw ls ttype argt tag1 tag2 s ln).
 
 (* ---- lex_preprocess: the scan that runs before the main loop of every lex() call ----
    It skips /* */ and // comments, reads a word (get_word) at every upper-case letter - and then ONE more character,
